@@ -1,6 +1,6 @@
 (** Extraction of the executable model for the correspondence driver.
     ExtrOcamlBasic only; N and Z stay the extracted inductives. *)
-Require Import Base Kinds GenUnionTable Schema Varint Utf8 Sval Ser Rabin CrcSpec Text CanonicalForm Target Reader De VectoredWrite AvroValue Encoding Denote Container FileSpec Json Parse SchemaJson PcfSpec SerHistory SingleObject Freeze Ownership Wf Derive CodecLoop DecodeLoop ContainerCodec ContainerReplay.
+Require Import Base Kinds GenUnionTable Schema Varint Utf8 Sval Ser Rabin CrcSpec Text CanonicalForm Target Reader De VectoredWrite AvroValue Encoding Denote DenoteOpt Container FileSpec Json Parse SchemaJson PcfSpec SerHistory SingleObject Freeze Ownership Wf Derive CodecLoop DecodeLoop ContainerCodec ContainerReplay.
 Require Extraction.
 Require Import ExtrOcamlBasic.
 Extraction Language OCaml.
@@ -25,4 +25,5 @@ Separate Extraction
   ContainerCodec.ccr_file ContainerCodec.cc_vdec ContainerCodec.BStream ContainerCodec.CEof
   ContainerReplay.rp_d0 ContainerReplay.rp_dread ContainerReplay.rp_policy_fill ContainerReplay.rp_policy_direct
   ContainerReplay.rp_raw_dec ContainerReplay.rp_crc32
-  Wf.depth_cost Denote.dval_any Denote.present Denote.erase_borrow Denote.typed_target Denote.dval_typed.
+  Wf.depth_cost Denote.dval_any Denote.present Denote.erase_borrow Denote.typed_target Denote.dval_typed
+  DenoteOpt.typed_target_opt DenoteOpt.dval_typed_opt.
